@@ -94,12 +94,36 @@ func minTTLOf(r zoneh.Resp) int64 {
 type c16Clock struct {
 	mu  sync.Mutex
 	sec int64
+	// gate: the next gateN readings of the clock wait for one another (bounded by real time), so that
+	// gateN callers which each read the clock once before anything else pass that point together
+	gateN  int
+	gateCh chan struct{}
+}
+
+// arm makes the next n readings of the clock wait until all n have arrived.
+func (c *c16Clock) arm(n int) {
+	c.mu.Lock()
+	c.gateN, c.gateCh = n, make(chan struct{})
+	c.mu.Unlock()
 }
 
 var c16Base = time.Date(2026, 1, 1, 0, 0, 0, 0, time.UTC)
 
 func (c *c16Clock) now() time.Time {
 	c.mu.Lock()
+	if c.gateN > 0 {
+		c.gateN--
+		ch := c.gateCh
+		if c.gateN == 0 {
+			close(ch)
+		}
+		c.mu.Unlock()
+		select {
+		case <-ch:
+		case <-time.After(300 * time.Millisecond):
+		}
+		c.mu.Lock()
+	}
 	defer c.mu.Unlock()
 	return c16Base.Add(time.Duration(c.sec) * time.Second)
 }
@@ -316,12 +340,17 @@ func genC16R(env *core.Env, emit func(core.Case)) {
 			var wg2 sync.WaitGroup
 			for g := 0; g < workers; g++ {
 				wg2.Add(1)
-				go func() {
+				go func(g int) {
 					defer wg2.Done()
 					<-start
 					for i := 0; i < 3; i++ {
-						res, err := rs.Resolve(context.Background(), "d.example")
-						if err != nil {
+						name := "d.example"
+						if i == 0 && round%2 == 1 {
+							// the very first lookups on a new Resolver are for different names, at the same time
+							name = []string{"a.example", "b.example", "c.example", "d.example"}[(g+round)%4]
+						}
+						res, err := rs.Resolve(context.Background(), name)
+						if err != nil || name != "d.example" {
 							continue
 						}
 						prio := 0
@@ -337,7 +366,7 @@ func genC16R(env *core.Env, emit func(core.Case)) {
 							_ = t
 						}
 					}
-				}()
+				}(g)
 			}
 			close(start)
 			wg2.Wait()
@@ -389,6 +418,11 @@ func genC16R(env *core.Env, emit func(core.Case)) {
 			for round := 0; round < 12 && rs2 != nil; round++ {
 				ver := 1 + round%2
 				srv.Set(c16Zone(ver, 0))
+				if round > 0 && round%3 != 0 {
+					// the entry exists and has expired: every caller reads the clock exactly once (to find
+					// that out) before it competes for the refresh; let them all get that far first
+					clock.arm(workers)
+				}
 				start := make(chan struct{})
 				var wg4 sync.WaitGroup
 				for g := 0; g < workers; g++ {
@@ -422,6 +456,7 @@ func genC16R(env *core.Env, emit func(core.Case)) {
 				wg4.Wait()
 				clock.mu.Lock()
 				clock.sec += 61
+				clock.gateN = 0
 				clock.mu.Unlock()
 			}
 			srv.Set(c16Zone(1, 0))
